@@ -18,7 +18,7 @@ CHECKS = {
   "Depth bound; alphabet of counts {None,-1,0,1,2,2.4,2.6,5,inf}; handles the contract forbids reusing are dead; no exact .5 ties."),
  "C15": (True, "E2", "model_checking", E2,
   "Closure search: breadth-first over every operation history of the real MultiKeyDict (5 keys x 4 values incl. 1 == 1.0, key tuples up to length 2; thorough 6 keys, tuples up to 3) and StrategyDict (4 names x 3 strategies; thorough 4 x 4) until no new canonical state appears, so every reachable state is visited and every operation applied from it; all observers and the three internal maps are compared with a reference model after each transition. The state count equals the closed-form number of reachable states. The StrategyDict search is repeated with strategies that are equal but never identical objects, and small universes with key tuples of length 3.",
-  "Small key/value universes (behaviour depends only on equality of keys/values); names do not shadow StrategyDict attributes."),
+  "Small key/value universes (behaviour depends only on equality of keys/values); two strategy names are also dict method names (they are attributes like any other)."),
  "C16": (True, "E2", "model_checking", E2,
   "Merged breadth-first search over add/next/add(negative) histories of the real Streamix (tie-free delta alphabet, <=3 live events, depth 6; thorough 8) plus exhaustive unmerged programs (k<=3 events x 9 deltas x 3 lengths x every non-decreasing insertion point, exact ties accepted either way; thorough k<=4), long non-dyadic accumulations for drift, and all ControlStream assign/read words up to length 8 (thorough 10); oracle is the statement (cumulative start times), not the algorithm.",
   "Item values are opaque labels; adding after StopIteration is outside the contract; depth/size bounds."),
